@@ -324,8 +324,9 @@ impl NotificationProtocol {
             command_rx: config.command_rx,
             pending_outbound: HashMap::new(),
             negotiation: HandshakeService::new(config.handshake),
-            sync_channel_size: config.sync_channel_size,
-            async_channel_size: config.async_channel_size,
+            // `tokio::sync::mpsc::channel()` panics if the capacity is zero so use at least one slot
+            sync_channel_size: config.sync_channel_size.max(1),
+            async_channel_size: config.async_channel_size.max(1),
             should_dial: config.should_dial,
         }
     }
